@@ -106,8 +106,14 @@ func (s *Stats) merge(o *Stats) {
 	for k, v := range o.PerScn {
 		s.PerScn[k] += v
 	}
+	// at most 5 replays per class (and 200 in all): a flood of one class must not crowd out another one
+	perClass := map[string]int{}
+	for _, v := range s.Violations {
+		perClass[v.Class]++
+	}
 	for _, v := range o.Violations {
-		if len(s.Violations) < 100 {
+		if perClass[v.Class] < 5 && len(s.Violations) < 200 {
+			perClass[v.Class]++
 			s.Violations = append(s.Violations, v)
 		}
 	}
@@ -167,7 +173,13 @@ func exploreLocal(sc Scenario, b Bounds, item Item, maxExec int, deadline time.T
 				fs2 = nil
 			}
 			for _, f := range fs2 { // findings of the traced replay carry the parking sites
-				if len(st.Violations) < 20 {
+				n := 0
+				for _, v := range st.Violations {
+					if v.Class == f.Class {
+						n++
+					}
+				}
+				if n < 3 && len(st.Violations) < 40 { // per class, so that a flood of one class does not hide another
 					st.Violations = append(st.Violations, Replay{Scn: sc.Name(), Bounds: b, Choices: res.Choices, Class: f.Class, What: f.What, Trace: res2.Trace})
 				}
 			}
